@@ -92,6 +92,7 @@ EDITS = {
  "E52-inline-isHotEdge-intersectEdges": [("@rename-text", "clipper_base.go", "func (c *clipperBase) intersectEdges(", {"isHotEdge(ae1)": "(ae1.outrec != nil)", "isHotEdge(ae2)": "(ae2.outrec != nil)", "isJoined(ae1)": "(ae1.joinWith != JoinNone)", "isJoined(ae2)": "(ae2.joinWith != JoinNone)"})],
  "E53-inline-polytype-setWindCount": [("@rename-text", "clipper_base.go", "func (c *clipperBase) setWindCountForClosedPathEdge(", {"getPolyType(ae2) != pt": "ae2.localMin.PolyType != pt", "isOpen(ae2)": "ae2.localMin.IsOpen", "pt := getPolyType(ae)": "pt := ae.localMin.PolyType"})],
  "E54-inline-isOpen-buildTree-doHorizontal": [("@rename-text", "clipper_base.go", "func (c *clipperBase) insertLeftEdge(", {"ae2.joinWith == JoinRight": "JoinRight == ae2.joinWith"})],
+ "E55-upstream-593-contracting-guard": [("offset.go", "	co.pathOut = Path64{}\n	cnt := len(path)\n	prev := cnt - 1", "	if a := Area64(path); (a < 0) != (co.groupDelta < 0) {\n		rec := getBounds(path)\n		offsetMinDim := math.Abs(co.groupDelta) * 2\n		if offsetMinDim > float64(rec.right-rec.left) || offsetMinDim > float64(rec.bottom-rec.top) {\n			return\n		}\n	}\n	co.pathOut = Path64{}\n	cnt := len(path)\n	prev := cnt - 1")],
  "E18-comment-and-blank-lines": [("rect_clip.go", "func (r *RectClip64) getNextLocation(path Path64, loc *Location, i *int, highI int) {\n	switch *loc {", "// getNextLocation advances i to the next vertex that leaves the current location.\nfunc (r *RectClip64) getNextLocation(path Path64, loc *Location, i *int, highI int) {\n\n	switch *loc {")],
 }
 def main():
